@@ -94,9 +94,9 @@ package controller
 //@   ensures[C01.maxconst C02 C05 C10 C03 C09] fans.fanMax(f.fan) == old(fans.fanMax(f.fan)) && f.pwmMap == old(f.pwmMap) && f.lastSetPwm == old(f.lastSetPwm)
 //@   ensures[C02.floor]  err == nil && fans.fanNeverStop(f.fan) ==> target >= old(floorOf(f))
 //@   ensures[C02.perm]   floorOf(f) >= old(floorOf(f))
-//@   ensures[C10.detect] err == nil && supportsResult[fans.FeatureRpmSensor] && fans.fanNeverStop(f.fan) && old(f.lastSetPwm) != nil && old(fans.rpmAvg(f.fan)) <= 0.0 && f.minPwmOffset == old(f.minPwmOffset) ==> target != old(*f.lastSetPwm)
-//@   ensures[C10.step]   f.minPwmOffset != old(f.minPwmOffset) ==> err == nil && f.minPwmOffset == old(f.minPwmOffset) + 1 && old(f.lastSetPwm) != nil && target == old(*f.lastSetPwm) + 1 && fans.rpmAvg(f.fan) == 1.0 && old(fans.rpmAvg(f.fan)) <= 0.0
-//@   ensures[C10.atmax]  supportsResult[fans.FeatureRpmSensor] && fans.fanNeverStop(f.fan) && old(f.lastSetPwm) != nil && old(fans.rpmAvg(f.fan)) <= 0.0 && old(*f.lastSetPwm) >= old(fans.fanMax(f.fan)) && f.minPwmOffset == old(f.minPwmOffset) && err == nil ==> target != old(*f.lastSetPwm)
+//@   ensures[C10.detect] err == nil && supportsResult[fans.FeatureRpmSensor] && fans.fanNeverStop(f.fan) && old(f.lastSetPwm) != nil && old(fans.rpmAvg(f.fan)) < 1.0 && f.minPwmOffset == old(f.minPwmOffset) ==> target != old(*f.lastSetPwm)
+//@   ensures[C10.step]   f.minPwmOffset != old(f.minPwmOffset) ==> err == nil && f.minPwmOffset == old(f.minPwmOffset) + 1 && old(f.lastSetPwm) != nil && target == old(*f.lastSetPwm) + 1 && fans.rpmAvg(f.fan) == 1.0 && old(fans.rpmAvg(f.fan)) < 1.0
+//@   ensures[C10.atmax]  supportsResult[fans.FeatureRpmSensor] && fans.fanNeverStop(f.fan) && old(f.lastSetPwm) != nil && old(fans.rpmAvg(f.fan)) < 1.0 && old(*f.lastSetPwm) >= old(fans.fanMax(f.fan)) && f.minPwmOffset == old(f.minPwmOffset) && err == nil ==> target != old(*f.lastSetPwm)
 //@   ensures[C02.raise]  f.minPwmOffset > old(f.minPwmOffset) ==> err == nil && old(f.lastSetPwm) != nil && target > old(*f.lastSetPwm) && floorOf(f) == old(floorOf(f)) + 1
 //@   ensures[nowrite C01 C02 C05 C10] pwmWrites == old(pwmWrites)
 //@   modifies f.minPwmOffset, f.stats.MinPwmOffset, f.stats.IncreasedMinPwmCount, f.stats.UnexpectedPwmValueCount
@@ -147,7 +147,7 @@ package controller
 //@   split fan
 //@   requires fans.fanWF(fan) && same(f.fan, fan) && configuration.CurrentConfig.RpmRollingWindowSize >= 1 && configuration.CurrentConfig.RpmRollingWindowSize <= 1000000000
 //@   let avgOK = fin(fans.rpmAvg(fan)) && abs(real(fans.rpmAvg(fan))) <= 1.0e15
-//@   ensures[C10.cutoff] avgOK && lastRpmRead == 0 && fans.rpmAvg(fan) > 0.0 ==> old(fans.rpmAvg(fan)) > 1.0
+//@   ensures[C10.cutoff] avgOK && lastRpmRead == 0 && (old(fans.rpmAvg(fan)) == 0.0 || old(fans.rpmAvg(fan)) >= 1.0e-270) && old(fans.rpmAvg(fan)) <= 1.0 ==> fans.rpmAvg(fan) < 1.0 && fans.rpmAvg(fan) >= 0.0
 //@   ensures[C10.nonneg] avgOK && configuration.CurrentConfig.RpmRollingWindowSize >= 2 && lastRpmRead >= 0 && (old(fans.rpmAvg(fan)) == 0.0 || old(fans.rpmAvg(fan)) >= 1.0e-270) && lastRpmRead <= 1000000000 ==> fans.rpmAvg(fan) >= 0.0
 //@   ensures fans.fanWF(fan)
 //@   ensures[C10.floorframe C02] floorOf(f) == old(floorOf(f)) && f.lastSetPwm == old(f.lastSetPwm) && pwmWrites == old(pwmWrites)
